@@ -383,6 +383,8 @@ func (h *Hist) step(i int, op Op) {
 		h.takeSnap(when, op)
 	case "ssnap":
 		h.takeStoreSnap(when, op)
+	case "sprev":
+		h.takeStorePrev(when, op)
 	case "readsnap":
 		h.readSnap(when, op.ID)
 	case "closesnap":
